@@ -10,18 +10,18 @@ import MvProps.C01
 namespace Mv.Core
 
 /-- ids are positions -/
-def DenseQ (S : Spec) : Prop := ∀ i f, S[i]? = some f → f.id = i
+def DenseQ (S : Spec) : Prop := ∀ (i : Nat) (f : SFrame), S[i]? = some f → f.id = i
 
 theorem denseQ_modify (S : Spec) (t : Nat) (g : SFrame → SFrame) (hg : ∀ f, (g f).id = f.id) (h : DenseQ S) :
     DenseQ (S.modify t g) := by
   intro i f hf
   rw [List.getElem?_modify] at hf
   cases hs : S[i]? with
-  | none => rw [hs] at hf; simp at hf
+  | none => rw [hs] at hf; cases hf
   | some f0 =>
     rw [hs] at hf
-    simp only [Option.map_some, Option.some.injEq] at hf
-    subst hf
+    have hf' : (if t = i then g f0 else f0) = f := by simpa using hf
+    rw [← hf']
     split
     · rw [hg]; exact h i f0 hs
     · exact h i f0 hs
@@ -79,7 +79,9 @@ theorem denseQ_specStep (S : Spec) (op : Op) (h : DenseQ S) : DenseQ (specStep S
     simp only [specStep, specUpdate]
     split
     · exact h
-    · exact denseQ_docChunks S _ (by simp) (denseQ_modify S id _ (fun _ => rfl) h) _ _ _
+    · rename_i old _
+      exact denseQ_docChunks S (S.modify id (SFrame.markSup S.length)) (by simp)
+        (denseQ_modify S id _ (fun _ => rfl) h) (specInherit old u) (some id) (specInherit old u).content
   | delete id t => exact denseQ_modify S id _ (fun _ => rfl) h
   | commit _ => exact h
   | reopen _ _ => exact h
@@ -185,12 +187,12 @@ theorem specStep_ident (S : Spec) (op : Op) (hne : op ≠ Op.create) (i : Nat) (
 theorem specStep_length_le (S : Spec) (op : Op) (hne : op ≠ Op.create) : S.length ≤ (specStep S op).length := by
   cases op with
   | create => exact absurd rfl hne
-  | put a t => simp [specStep, specPut]; omega
+  | put a t => simp only [specStep, specPut, List.length_append, List.length_cons]; omega
   | update id u t =>
     simp only [specStep, specUpdate]
     split
     · exact Nat.le_refl _
-    · simp; omega
+    · simp only [List.length_append, List.length_cons, List.length_modify]; omega
   | delete id t => simp [specStep, specDelete]
   | commit _ => exact Nat.le_refl _
   | reopen _ _ => exact Nat.le_refl _
@@ -245,6 +247,9 @@ example : (step (run Mem.create exHistory) (.put exDoc {})).2.isAck = true := by
 example : ((abs (step (run Mem.create exHistory) (.put exDoc {})).1).map (fun f => (f.id, f.role, f.chunkIndex))).drop 7
     = [(7, .document, none), (8, .chunk, some 0), (9, .chunk, some 1)] := by decide
 example : ∀ op ∈ [Op.vacuum 90 95, Op.doctor true true false true 95 96 97 98, Op.delete 4 {}, Op.reopen 99 99],
-    op ≠ Op.create := by decide
+    op ≠ Op.create := by
+  intro op h
+  simp only [List.mem_cons, List.not_mem_nil, or_false] at h
+  rcases h with rfl | rfl | rfl | rfl <;> (intro h; cases h)
 
 end Mv.Core
